@@ -87,6 +87,10 @@ func (x *Exec) havocUnknown(st *State, what string) {
 	alloc := x.alloc(st)
 	st.havocAll()
 	x.assume(st, mkLe(alloc, x.alloc(st)))
+	for _, ax := range x.env.con.Axioms {
+		ce := &cenv{x: x, st: st, old: st, vars: map[string]cvar{}}
+		x.assume(st, ce.evalBool(ax.Expr))
+	}
 }
 
 func (x *Exec) callFunc(fr *Frame, st *State, fn *ssa.Function, bindings []Val, args []Val, in ssa.Instruction, rt types.Type) Val {
@@ -316,6 +320,19 @@ func (x *Exec) evalModifies(ce *cenv, ms []*CExpr) []modEntry {
 				heapNames = append(heapNames, hn)
 			}
 			out = append(out, modEntry{heap: hn, ref: sliceRef(s), typ: st.Elem()})
+			continue
+		}
+		if m.Kind == "call" && m.Name == "all" {
+			v := ce.eval(m.Args[0])
+			pt := derefType(v.t)
+			if pt == nil || structOf(pt) == nil {
+				x.unsup("modifies all(%s): not a pointer to a struct", m.Args[0])
+			}
+			p := x.asPtr(v.v, v.t)
+			if p.Base != PObj || len(p.Path) != 0 {
+				x.unsup("modifies all(%s): not an object pointer", m.Args[0])
+			}
+			out = append(out, modEntry{heap: "F:" + te.typeStr(pt) + ".", prefix: true, ref: p.Ref, typ: pt})
 			continue
 		}
 		if m.Kind == "call" && m.Name == "mapof" {
